@@ -63,6 +63,13 @@ OPEN = [
      'A-MIB defines a-root, B-MIB imports it: A exports **{"a_root": a_root}, B runs importSymbols("A-MIB", "a-root")'),
 ]
 
+OPEN.append(('C16', 'C16.R4', 'RFC1158-MIB-covers-shared-table',
+             'F29: convertImportv2["RFC1158-MIB"] is built from the RFC1155-SMI/RFC1065-SMI table instead of the shared '
+             'RFC1158-MIB/RFC1213-MIB table, so symbols such as sysDescr imported FROM RFC1158-MIB are not redirected '
+             'to their SMIv2 home (the same import FROM RFC1213-MIB is); not repaired: which of the two tables the '
+             'author meant for the 36 extra RFC1158 entries cannot be validated offline',
+             'E-MIB with `IMPORTS sysDescr FROM RFC1158-MIB sysName FROM RFC1213-MIB`: imports keep RFC1158-MIB: '
+             '[sysDescr] while sysName moves to SNMPv2-MIB'))
 F27_SITES = ['template-literal dq/default.value@macro:default', 'template-literal dq/displayhint@textualconvention', 'template-literal dq/lastupdated@moduleidentity', 'template-literal dq/productrelease@agentcapabilities', 'template-literal dq/reference@agentcapabilities', 'template-literal dq/units@objecttype+objectidentity', 'template-literal tq/contactinfo|wordwrap@moduleidentity', 'template-literal tq/description|wordwrap@agentcapabilities', 'template-literal tq/description|wordwrap@modulecompliance', 'template-literal tq/description|wordwrap@moduleidentity', 'template-literal tq/description|wordwrap@notificationgroup', 'template-literal tq/description|wordwrap@notificationtype', 'template-literal tq/description|wordwrap@objectgroup', 'template-literal tq/description|wordwrap@objecttype+objectidentity', 'template-literal tq/description|wordwrap@textualconvention', 'template-literal tq/organization|wordwrap@moduleidentity', 'template-literal tq/reference|wordwrap@objecttype+objectidentity']
 for _k in F27_SITES:
     OPEN.append(('C15', 'C15.R4', _k,
